@@ -52,7 +52,7 @@ func (msg Message) generateUnmarshalBebop(w *iohelp.ErrorWriter, settings Genera
 	writeLine(w, "\tif len(buf) < 4 {")
 	writeLine(w, "\t\treturn io.ErrUnexpectedEOF")
 	writeLine(w, "\t}")
-	writeLine(w, "\t_ = iohelp.ReadUint32Bytes(buf[at:])")
+	writeLine(w, "\tbodyLen := iohelp.ReadUint32Bytes(buf[at:])")
 	writeLine(w, "\tbuf = buf[4:]")
 	writeLine(w, "\tfor {")
 	writeLine(w, "\t\tif len(buf) <= at {")
@@ -67,6 +67,11 @@ func (msg Message) generateUnmarshalBebop(w *iohelp.ErrorWriter, settings Genera
 		writeFieldReadByter("(*bbp."+name+")", fd.FieldType, w, settings, 3, true)
 	}
 	writeLine(w, "\t\tdefault:")
+	// the terminator, or a field this version does not know: the rest of the body is
+	// skipped unread, but it has to be there
+	writeLine(w, "\t\t\tif uint64(len(buf)) < uint64(bodyLen) {")
+	writeLine(w, "\t\t\t\treturn io.ErrUnexpectedEOF")
+	writeLine(w, "\t\t\t}")
 	writeLine(w, "\t\t\treturn nil")
 	writeLine(w, "\t\t}")
 	writeLine(w, "\t}")
